@@ -63,6 +63,36 @@ def run(ck):
                   "intersection over in-region predecessors plus the node, successors re-queued on change", floor=8)
     ck.rule("R3", "successor/predecessor accessors and heads/leaves read the right map", floor=4)
 
+    # ---------------------------------------------------------------- R6 recursion state
+    ck.rule("R6", "a recursive walk never changes in place a collection it received as argument: sibling branches of the recursion see the "
+                  "same visit state their parent saw", floor=2)
+    from sa.astutil import MUTATORS as _MUT
+    for name, fn in sorted(meths.items()):
+        rec_calls = [c for c in walk_body(fn) if isinstance(c, ast.Call) and dotted(c.func) == "self.%s" % name]
+        if not rec_calls:
+            continue
+        params = [a.arg for a in fn.args.args[1:]]
+        rebound = set(t.id for n in walk_body(fn) if isinstance(n, ast.Assign) for t in n.targets if isinstance(t, ast.Name))
+        for p_ in params:
+            if p_ in rebound and not any(isinstance(n, ast.If) and "%s is None" % p_ in norm(n.test) for n in walk_body(fn)):
+                continue
+            muts = []
+            for n in walk_body(fn):
+                if isinstance(n, (ast.Assign, ast.AugAssign, ast.Delete)):
+                    tg = n.targets if isinstance(n, (ast.Assign, ast.Delete)) else [n.target]
+                    for t in tg:
+                        if isinstance(t, ast.Subscript) and isinstance(t.value, ast.Name) and t.value.id == p_:
+                            muts.append(norm(n).split("\n")[0][:50])
+                if isinstance(n, ast.Call) and isinstance(n.func, ast.Attribute) and n.func.attr in _MUT and isinstance(n.func.value, ast.Name) and n.func.value.id == p_:
+                    muts.append(norm(n)[:50])
+            passed = any(isinstance(a, ast.Name) and a.id == p_ for c in rec_calls for a in list(c.args) + [k.value for k in c.keywords])
+            used_as_state = passed or bool(muts)
+            if not used_as_state:
+                continue
+            ck.ob("R6", "DiGraph.%s:%s-not-mutated" % (name, p_), not muts, m.where(fn),
+                  "%s changes its argument `%s` in place (%s) and the recursion hands the same object on: what one branch records is seen "
+                  "by its siblings (and by the caller)" % (name, p_, "; ".join(muts[:2])))
+
     # ---------------------------------------------------------------- R1
     for name, fn in sorted(meths.items()):
         ws = _state_writes(fn)
